@@ -355,7 +355,12 @@ def parse_config_file(
         # tomli annotates the arg as BinaryIO, and we don't treat BufferedReader
         # as a BinaryIO
         data = tomli.load(f)  # static analysis: ignore[incompatible_argument]
-    data = data.get("tool", {}).get("pyanalyze", {})
+    tool = data.get("tool", {})
+    data = tool.get("pyanalyze", {}) if isinstance(tool, dict) else {}
+    if not isinstance(data, dict):
+        raise InvalidConfigOption(
+            f"[tool.pyanalyze] in {path} must be a table, not {data!r}"
+        )
     yield from _parse_config_section(
         data, path=path, priority=priority, seen_paths={path, *seen_paths}
     )
